@@ -243,6 +243,10 @@ func (t DPoP) Match(jkt string, method string, url string) (bool, error) {
 
 func strip(raw string) string {
 	url, _ := url.Parse(raw)
+	if url == nil {
+		// not a URL: compare as-is
+		return raw
+	}
 	url.Scheme = "https"
 	url.Host = strings.Split(url.Host, ":")[0]
 	url.RawQuery = ""
